@@ -122,7 +122,42 @@ def scope_lookup_shape(ctx, rule, fn, inner, crate='pavexc'):
         miss_ok = bool(none_targets) and all(not (b.reachable(n_, avoid=[eb]) & rets) for n_ in none_targets if n_ is not None)
         # and the inner lookup's value is never returned without that Some test
         miss_ok = miss_ok and not (b.reachable(b.succ(lb), avoid=[s for s in some_targets if s is not None] + [eb]) & rets)
-    ok = bool(look) and bool(ext) and not chi and from_parents and order and pops == ['pop_front', 'push_back'] and miss_ok
+    # nothing is returned before the walk starts: every Some(..) result is produced inside the loop
+    popb = [bb for bb, t in b.calls() if 'VecDeque' in (t['aty'][0] if t['aty'] else '') and (callee(t) or '').endswith('pop_front')]
+    somes = [bb for bb, j, st in b.all_assigns() if st['lhs'] == {'l': 0} and st['rv']['k'] == 'agg' and st['rv'].get('var') == 'Some']
+    other_results = [bb for bb, t in b.calls() if t.get('dest') == {'l': 0} and not (popb and b.dominates(popb[0], bb))]
+    in_walk = bool(popb) and all(b.dominates(popb[0], sb) for sb in somes) and not other_results
+    ok = bool(look) and bool(ext) and not chi and from_parents and order and pops == ['pop_front', 'push_back'] and miss_ok and in_walk
     ctx.ob(rule, 'scope-walk|%s' % (fn.split('::')[-2] + '::' + fn.split('::')[-1]), ok, b.loc(look[0][0]) if look else b.loc(),
-           'current scope first: %s; parents only: %s (children consulted: %s); FIFO: %s; a miss in a scope always continues to its parents: %s'
-           % (order, from_parents, bool(chi), pops, miss_ok))
+           'current scope first: %s; parents only: %s (children consulted: %s); FIFO: %s; a miss in a scope always continues to its parents: %s; '
+           'every result is produced inside the walk (no lookup across all ancestors before it): %s'
+           % (order, from_parents, bool(chi), pops, miss_ok, in_walk))
+
+
+def concrete_before_templated(ctx, rule, fn, getter, crate='pavexc'):
+    """per-scope lookup: the exact (concrete) entry is consulted first, and wins; the templated entries are only searched when it is absent"""
+    b = ctx.need(rule, fn.split('::')[-2] + '::' + fn.split('::')[-1], ctx.fb.body(crate, fn))
+    if b is None:
+        return
+    gets = [bb for bb, t in b.calls() if callee(t) == getter]
+    templ = [bb for bb, t in b.calls() if (callee(t) or '').split('::')[-1] in ('find_map', 'find', 'filter_map', 'position', 'any')
+             or (callee(t) or '').endswith('is_a_template_for')]
+    for x in ctx.fb.bodies_of_item(crate, fn):
+        if x is not b and any((callee(t) or '').endswith('is_a_template_for') for _, t in x.calls()):
+            # the search over the templated entries lives in a closure: its call site is the adaptor above
+            pass
+    ok = bool(gets) and bool(templ) and all(b.dominates(gets[0], tb) for tb in templ)
+    # and a concrete hit returns: the Some edge of the first `get` reaches a return without passing the templated search
+    hit_returns = False
+    if gets:
+        t = b.term(gets[0])
+        der = forward_derived(b, {t['dest']['l']})
+        for sb in b.live_blocks():
+            w = b.term(sb)
+            if w and w['k'] == 'switch' and strip_generics(w.get('enum', '')) == 'core::option::Option' and w['src']['l'] in der:
+                st = switch_edges(w).get('Some')
+                if st is not None and (b.reachable(st, avoid=templ) & set(b.return_blocks())) and not (set(templ) & b.reachable(st, avoid=list(b.return_blocks()))):
+                    hit_returns = True
+    ctx.ob(rule, 'concrete-first|%s' % (fn.split('::')[-2] + '::' + fn.split('::')[-1]), ok and hit_returns, b.loc(gets[0]) if gets else b.loc(),
+           'the exact entry is looked up before the templated ones are searched (%s) and a hit is returned without consulting them (%s): a handler or '
+           'constructor registered for exactly this type is never replaced by a specialised generic one' % (ok, hit_returns))
